@@ -225,14 +225,14 @@ def run_layout(record, li, trace=False):
         try:
             actor.run(lay["ops"])
             hooks["finish"](actor)
-            st = dict(s.stats)
+            st = s.full_stats()
             st.update(s.k.counters)
             st["events"] = s.k.seq
             st["sim_seconds"] = (s.k.now_us - 1_700_000_000_000_000) / 1e6
             st["_known_hits"] = dict(s.known_hits)
             return None, st, s.k.event_digest(), s.model
         except Violation as v:
-            return v, dict(s.stats), s.k.event_digest(), None
+            return v, s.full_stats(), s.k.event_digest(), None
     finally:
         s.close()
 
